@@ -44,6 +44,9 @@ func (w *World) Regimes() map[string][]string {
 	// normal seats are elected producers; the free blocks lie in [CRVotingStartHeight, new-CR era)
 	// where illegal-block evidence forces an arbiter change under the DPoS 1.0 reward rules
 	out["public"] = append([]string{}, late[:10]...)
+	// late + DPoS v2 reward balances present and one claim of voter 0 pending (its real-withdraw
+	// transaction not yet mined): the free blocks claim and pay out, also both in one block
+	out["claim"] = append(append([]string{}, late...), "seedreward", "claim:0", "empty", "empty")
 	// late + voter 0 staked and the two representative producers upgraded to v1+v2 but without
 	// any v2 vote: the free blocks lift them to just below / exactly at / above
 	// DPoSV2EffectiveVotes (membership of DposV2EffectedProducers)
@@ -60,7 +63,7 @@ func (w *World) Regimes() map[string][]string {
 }
 
 // RegimeNames lists the regimes in exploration order.
-var RegimeNames = []string{"early", "late", "inactive", "canceled", "v2", "v2active", "returned", "v2ready", "public"}
+var RegimeNames = []string{"early", "late", "inactive", "canceled", "v2", "v2active", "returned", "v2ready", "public", "claim"}
 
 // StateCanonOpts are the canonicalisation options under which two DPoS states are compared.
 var StateCanonOpts = &CanonOpts{
@@ -82,7 +85,7 @@ var StateCanonOpts = &CanonOpts{
 	// additive maps: "m[k] -= v" (or deleting the last inner element) on rollback leaves a zero /
 	// empty entry where the directly built state has none; both read the same everywhere
 	ElideZero: []string{".StateKeyFrame.DposV2VoteRights", ".StateKeyFrame.UsedDposV2Votes", ".StateKeyFrame.UsedDposVotes",
-		".StateKeyFrame.DPoSV2RewardInfo", ".detailedDPoSV2Votes"},
+		".StateKeyFrame.DPoSV2RewardInfo", ".StateKeyFrame.DposV2RewardClaimingInfo", ".StateKeyFrame.DposV2RewardClaimedInfo", ".detailedDPoSV2Votes"},
 }
 
 type explicit struct {
@@ -177,7 +180,13 @@ func DiffFieldNames(a, b []string) []string {
 				depth--
 				if depth == 0 && !other[p[:i+1]] {
 					name = Generic(p[:i+1])
-					name = name[:len(name)-3] + "[membership]"
+					// an element present on one side only: "+" lines belong to the second
+					// rendering (the instance under test): extra there, else missing there
+					if side == '+' {
+						name = name[:len(name)-3] + "[extra]"
+					} else {
+						name = name[:len(name)-3] + "[missing]"
+					}
 					break
 				}
 			}
@@ -190,6 +199,15 @@ func DiffFieldNames(a, b []string) []string {
 			name = strings.TrimSuffix(name, ".len") + "[membership]"
 		}
 		set[name] = true
+	}
+	// a changed length says nothing more once an extra / missing element of the map is named
+	for k := range set {
+		if strings.HasSuffix(k, "[membership]") {
+			base := strings.TrimSuffix(k, "[membership]")
+			if set[base+"[extra]"] || set[base+"[missing]"] {
+				delete(set, k)
+			}
+		}
 	}
 	var out []string
 	for k := range set {
